@@ -173,12 +173,65 @@ theorem transformConnections_expand (subs : List (FieldDef × Node)) (gates : Li
     · rw [e2, e1]
       simp
 
-/-! ### one module -/
+/-! ### the table invariant -/
 
-/-- the table stores every module under its own name -/
-def TypOK (a : Archs) : Prop := ∀ name v, a.lookup name = some v → v.1.typ = name
+def idents (d : Def) : List Str := d.modules.map (·.1.ident)
+
+/-- how the submodules of a stored archetype relate to the declarations of its module: the own
+    submodules come first, in declaration order, each carrying the identifier of its declared type
+    (a module identifier, or — without arguments — one of the module's own type parameters);
+    the inherited ones follow and carry module identifiers -/
+def Shape (d : Def) (params : List GenericsDef) :
+    List (FieldDef × TypClause Str) → List (FieldDef × Node) → Prop
+  | [], par => ∀ s ∈ par, s.2.typ ∈ idents d
+  | _ :: _, [] => False
+  | (_, ty) :: ds, s :: ss =>
+    s.2.typ = ty.ident ∧
+    (ty.ident ∈ idents d ∨ (ty.args.isEmpty = true ∧ ∃ a ∈ params, a.binding = ty.ident)) ∧
+    Shape d params ds ss
+
+/-- every stored archetype is stored under its own name, stems from a module of the description
+    and has the `Shape` of that module -/
+def TableOK (d : Def) (a : Archs) : Prop :=
+  ∀ name v, a.lookup name = some v → v.1.typ = name ∧
+    ∃ km ∈ d.modules, km.1.ident = name ∧ v.2 = km.1.args ∧ Shape d km.1.args km.2.submodules v.1.subs
+
+/-- the supported fragment (`Spec.unsupported d = false`), as facts -/
+structure Supported (d : Def) : Prop where
+  uniq : Spec.allDistinct (idents d) = true
+  fresh : ∀ km ∈ d.modules, ∀ a ∈ km.1.args, a.binding ∉ idents d
+  plainParent : ∀ km ∈ d.modules, ∀ p, km.2.inherit = some p →
+    ∀ km' ∈ d.modules, km'.1.ident = p → km'.1.args = []
+
+theorem supported_of {d : Def} (h : Spec.unsupported d = false) : Supported d := by
+  unfold Spec.unsupported at h
+  simp only [Bool.or_eq_false_iff, Bool.not_eq_false'] at h
+  obtain ⟨⟨h1, h2⟩, h3⟩ := h
+  refine ⟨h1, ?_, ?_⟩
+  · intro km hkm a ha hmem
+    obtain ⟨km', hkm', he⟩ := List.mem_map.1 hmem
+    have : (d.modules.any fun km => km.1.args.any fun a => d.modules.any fun km' =>
+        decide (km'.1.ident = a.binding)) = true := by
+      apply List.any_eq_true.2
+      refine ⟨km, hkm, List.any_eq_true.2 ⟨a, ha, List.any_eq_true.2 ⟨km', hkm', by simpa using he⟩⟩⟩
+    rw [h2] at this
+    cases this
+  · intro km hkm p hp km' hkm' he
+    cases hargs : km'.1.args with
+    | nil => rfl
+    | cons x xs =>
+      exfalso
+      have h3' := List.any_eq_false.1 h3 km hkm
+      simp only [hp, Bool.not_eq_true, List.any_eq_false] at h3'
+      have := h3' km' hkm'
+      simp [he, hargs] at this
 
 theorem setTyp_self (n : Node) : n.setTyp n.typ = n := by cases n; rfl
+theorem setTyp_typ (t : Str) (n : Node) : (n.setTyp t).typ = t := by cases n; rfl
+theorem setSubs_typ (s : List (FieldDef × Node)) (n : Node) : (n.setSubs s).typ = n.typ := by cases n; rfl
+theorem setSubs_subs (s : List (FieldDef × Node)) (n : Node) : (n.setSubs s).subs = s := by cases n; rfl
+theorem setSubs_setSubs (s s' : List (FieldDef × Node)) (n : Node) :
+    (n.setSubs s).setSubs s' = n.setSubs s' := by cases n; rfl
 
 theorem getArch_lookup {a : Archs} {k : Str} {v : Node × List GenericsDef} (h : getArch a k = .ok v) :
     a.lookup k = some v := by
@@ -187,78 +240,325 @@ theorem getArch_lookup {a : Archs} {k : Str} {v : Node × List GenericsDef} (h :
   | none => rw [hl] at h; cases h
   | some v' => rw [hl] at h; cases h; rfl
 
-/-- a submodule whose type has no arguments -/
-theorem transformSubmodule_evalType {fld : FieldDef} {key : TypClause GenericsDef} {t : TypClause Str}
-    {a : Archs} {ev : Str → Except Fail (Node × List GenericsDef)}
-    (decls : Str → List (FieldDef × TypClause Str))
-    (hev : ∀ name v, a.lookup name = some v → ev name = .ok v) (htyp : TypOK a)
-    (hna : t.args.isEmpty = true) {out : FieldDef × Node}
-    (h : transformSubmodule fld key t a = .ok out) :
-    fld.kard ≠ .cluster 0 ∧ out.1 = fld ∧ Spec.evalType ev decls key.args t = .ok out.2 := by
+theorem tableOK_ident {d : Def} {a : Archs} (ht : TableOK d a) {name : Str} {v : Node × List GenericsDef}
+    (h : a.lookup name = some v) : name ∈ idents d := by
+  obtain ⟨_, km, hkm, he, _⟩ := ht name v h
+  exact List.mem_map.2 ⟨km, hkm, he⟩
+
+/-! ### type arguments: sequential replacement by symbol = positional replacement by declaration -/
+
+/-- what the loop of `substArgs` does to one submodule -/
+def replOne (acts : List (Str × Node)) (s : FieldDef × Node) : FieldDef × Node :=
+  acts.foldl (fun s a => if s.2.typ = a.1 then (s.1, a.2) else s) s
+
+/-- what the loop of `substArgs` does to the submodule list -/
+def replAll (acts : List (Str × Node)) (subs : List (FieldDef × Node)) : List (FieldDef × Node) :=
+  acts.foldl (fun subs a => replaceTyp a.1 a.2 subs) subs
+
+theorem replAll_map : ∀ (acts : List (Str × Node)) (subs : List (FieldDef × Node)),
+    replAll acts subs = subs.map (replOne acts)
+  | [], subs => by
+    have : replOne ([] : List (Str × Node)) = id := rfl
+    rw [this, List.map_id]
+    rfl
+  | a :: r, subs => by
+    have ih := replAll_map r (replaceTyp a.1 a.2 subs)
+    simp only [replAll, List.foldl_cons] at ih ⊢
+    rw [ih]
+    simp only [replaceTyp, List.map_map]
+    apply List.map_congr_left
+    intro s _
+    simp [replOne, List.foldl_cons]
+
+theorem replOne_noop : ∀ (acts : List (Str × Node)) (s : FieldDef × Node),
+    (∀ a ∈ acts, a.1 ≠ s.2.typ) → replOne acts s = s
+  | [], _, _ => rfl
+  | a :: r, s, h => by
+    have hne : ¬ s.2.typ = a.1 := fun e => h a (List.mem_cons_self ..) e.symm
+    simp only [replOne, List.foldl_cons, if_neg hne]
+    exact replOne_noop r s fun x hx => h x (List.mem_cons_of_mem _ hx)
+
+theorem replOne_find : ∀ (acts : List (Str × Node)) (s : FieldDef × Node),
+    (∀ a ∈ acts, ∀ b ∈ acts, b.1 ≠ a.2.typ) →
+    replOne acts s = match acts.find? (fun a => a.1 = s.2.typ) with
+      | some a => (s.1, a.2)
+      | none => s
+  | [], _, _ => rfl
+  | a :: r, s, h => by
+    by_cases he : s.2.typ = a.1
+    · have : replOne (a :: r) s = replOne r (s.1, a.2) := by
+        simp only [replOne, List.foldl_cons, if_pos he]
+      rw [this, replOne_noop r (s.1, a.2) fun b hb => h a (List.mem_cons_self ..) b (List.mem_cons_of_mem _ hb)]
+      simp [he]
+    · have : replOne (a :: r) s = replOne r s := by
+        simp only [replOne, List.foldl_cons, if_neg he]
+      rw [this, replOne_find r s fun x hx y hy => h x (List.mem_cons_of_mem _ hx) y (List.mem_cons_of_mem _ hy)]
+      have hne : ¬ a.1 = s.2.typ := fun e => he e.symm
+      simp [hne]
+
+theorem replAll_substOwn (d : Def) (params : List GenericsDef) (acts : List (Str × Node))
+    (hb : ∀ act ∈ acts, ∃ p ∈ params, p.binding = act.1)
+    (hfresh : ∀ p ∈ params, p.binding ∉ idents d)
+    (hact : ∀ act ∈ acts, act.2.typ ∈ idents d) :
+    ∀ (decls : List (FieldDef × TypClause Str)) (subs : List (FieldDef × Node)),
+      Shape d params decls subs → replAll acts subs = Spec.substOwn acts decls subs := by
+  have hsep : ∀ a ∈ acts, ∀ b ∈ acts, b.1 ≠ a.2.typ := by
+    intro a ha b hb' e
+    obtain ⟨p, hp, hpe⟩ := hb b hb'
+    exact hfresh p hp (hpe ▸ e ▸ hact a ha)
+  have hnoop : ∀ (s : FieldDef × Node), s.2.typ ∈ idents d → replOne acts s = s := by
+    intro s hs
+    apply replOne_noop
+    intro a ha e
+    obtain ⟨p, hp, hpe⟩ := hb a ha
+    exact hfresh p hp (hpe ▸ e ▸ hs)
+  intro decls
+  induction decls with
+  | nil =>
+    intro subs hsh
+    rw [replAll_map]
+    simp only [Spec.substOwn]
+    have : ∀ (l : List (FieldDef × Node)), (∀ s ∈ l, s.2.typ ∈ idents d) → l.map (replOne acts) = l := by
+      intro l
+      induction l with
+      | nil => intro _; rfl
+      | cons x l ih =>
+        intro hl
+        rw [List.map_cons, hnoop x (hl x (List.mem_cons_self ..)), ih fun s hs => hl s (List.mem_cons_of_mem _ hs)]
+    exact this subs hsh
+  | cons dcl ds ih =>
+    intro subs hsh
+    cases dcl with
+    | mk f ty =>
+      cases subs with
+      | nil => exact absurd hsh (by simp [Shape])
+      | cons s ss =>
+        obtain ⟨h1, h2, h3⟩ := hsh
+        have ih' := ih ss h3
+        rw [replAll_map] at ih' ⊢
+        simp only [List.map_cons, Spec.substOwn, ih']
+        congr 1
+        by_cases hargs : ty.args.isEmpty = true
+        · rw [if_pos hargs, replOne_find acts s hsep, h1]
+          cases acts.find? (fun a => decide (a.1 = ty.ident)) <;> rfl
+        · rw [if_neg hargs]
+          rcases h2 with h2 | h2
+          · exact hnoop s (h1 ▸ h2)
+          · exact absurd h2.1 hargs
+
+theorem plain_of_lookup {a : Archs} {ev : Str → Except Fail (Node × List GenericsDef)}
+    (hev : ∀ name v, a.lookup name = some v → ev name = .ok v) {name : Str} {n : Node}
+    {deps : List GenericsDef} (h : a.lookup name = some (n, deps)) (hd : deps.isEmpty = true) :
+    Spec.plain ev name = .ok n := by
+  unfold Spec.plain
+  rw [hev _ _ h]
+  show (if deps.isEmpty = true then Except.ok n else kerr .invalidTypStatement [name]) = _
+  rw [if_pos hd]
+
+/-- the `for (i, generic_binding)` loop of `transform_submodule` -/
+theorem substArgs_spec {d : Def} {typ : TypClause Str} {a : Archs}
+    {ev : Str → Except Fail (Node × List GenericsDef)}
+    (hev : ∀ name v, a.lookup name = some v → ev name = .ok v) (ht : TableOK d a) :
+    ∀ (gs : List GenericsDef) (as : List Str) (node node' : Node), gs.length = as.length →
+      substArgs typ a gs as node = .ok node' →
+      ∃ acts, (gs.zip as).mapM (Spec.actual ev typ) = .ok acts ∧
+        node' = node.setSubs (replAll acts node.subs) ∧
+        ∀ act ∈ acts, (∃ g ∈ gs, g.binding = act.1) ∧ act.2.typ ∈ idents d
+  | [], as, node, node', _, h => by
+    unfold substArgs at h
+    cases h
+    refine ⟨[], rfl, ?_, fun act hact => by cases hact⟩
+    cases node
+    rfl
+  | g :: gs, [], node, node', hl, _ => by simp at hl
+  | g :: gs, x :: as, node, node', hl, h => by
+    unfold substArgs at h
+    obtain ⟨v, hv, h⟩ := bind_ok h
+    cases v with
+    | mk repl deps =>
+    simp only [] at h
+    by_cases hdeps : (!deps.isEmpty) = true
+    · rw [if_pos hdeps] at h
+      cases h
+    · rw [if_neg hdeps] at h
+      obtain ⟨vi, hvi, h⟩ := bind_ok h
+      cases vi with
+      | mk iface xi =>
+      simp only [] at h
+      by_cases hconf : (!repl.conformTo iface) = true
+      · rw [if_pos hconf] at h
+        cases h
+      · rw [if_neg hconf] at h
+        obtain ⟨acts, hacts, hnode, hall⟩ := substArgs_spec hev ht gs as _ node' (by simpa using hl) h
+        have hlx := getArch_lookup hv
+        have hdeps' : deps.isEmpty = true := by simpa using hdeps
+        have hconf' : repl.conformTo iface = true := by simpa using hconf
+        have hact : Spec.actual ev typ (g, x) = .ok (g.binding, repl) := by
+          unfold Spec.actual
+          rw [bind_ok_eq (plain_of_lookup hev hlx hdeps'), bind_ok_eq (hev _ _ (getArch_lookup hvi))]
+          show (if repl.conformTo iface = true then _ else _) = _
+          rw [if_pos hconf']
+        refine ⟨(g.binding, repl) :: acts, ?_, ?_, ?_⟩
+        · simp only [List.zip_cons_cons, List.mapM_cons]
+          rw [bind_ok_eq hact, bind_ok_eq hacts]
+          rfl
+        · rw [hnode, setSubs_setSubs, setSubs_subs]
+          rfl
+        · intro act hmem
+          rcases List.mem_cons.1 hmem with rfl | hmem
+          · refine ⟨⟨g, List.mem_cons_self .., rfl⟩, ?_⟩
+            rw [(ht _ _ hlx).1]
+            exact tableOK_ident ht hlx
+          · obtain ⟨⟨g', hg', he⟩, h2⟩ := hall act hmem
+            exact ⟨⟨g', List.mem_cons_of_mem _ hg', he⟩, h2⟩
+
+theorem ownDecls_of_mem {d : Def} (hs : Supported d) {km : TypClause GenericsDef × ModuleDef}
+    (hm : km ∈ d.modules) : Spec.ownDecls d km.1.ident = km.2.submodules := by
+  unfold Spec.ownDecls
+  have : ∀ (l : List (TypClause GenericsDef × ModuleDef)),
+      Spec.allDistinct (l.map (·.1.ident)) = true → km ∈ l →
+      l.find? (fun x => x.1.ident = km.1.ident) = some km := by
+    intro l
+    induction l with
+    | nil => intro _ h; cases h
+    | cons x l ih =>
+      intro hd hmem
+      simp only [List.map_cons, Spec.allDistinct, Bool.and_eq_true, Bool.not_eq_true'] at hd
+      rcases List.mem_cons.1 hmem with rfl | hmem
+      · simp
+      · have hne : x.1.ident ≠ km.1.ident := by
+          intro e
+          have : x.1.ident ∈ l.map (·.1.ident) := e ▸ List.mem_map.2 ⟨km, hmem, rfl⟩
+          have hc : (l.map (·.1.ident)).contains x.1.ident = true := by simpa using this
+          rw [hd.1] at hc
+          cases hc
+        simp only [List.find?_cons, hne, decide_false]
+        exact ih hd.2 hmem
+  rw [this d.modules hs.uniq hm]
+
+/-! ### one submodule -/
+
+theorem transformSubmodule_evalType {d : Def} (hs : Supported d) {fld : FieldDef}
+    {key : TypClause GenericsDef} {t : TypClause Str} {a : Archs}
+    {ev : Str → Except Fail (Node × List GenericsDef)}
+    (hev : ∀ name v, a.lookup name = some v → ev name = .ok v) (ht : TableOK d a)
+    {out : FieldDef × Node} (h : transformSubmodule fld key t a = .ok out) :
+    fld.kard ≠ .cluster 0 ∧ out.1 = fld ∧ Spec.evalType ev (Spec.ownDecls d) key.args t = .ok out.2 ∧
+    out.2.typ = t.ident ∧
+    (t.ident ∈ idents d ∨ (t.args.isEmpty = true ∧ ∃ b ∈ key.args, b.binding = t.ident)) := by
   unfold transformSubmodule at h
   by_cases hz : fld.kard = .cluster 0
   · rw [if_pos hz] at h
     cases h
-  · rw [if_neg hz, if_pos hna] at h
-    obtain ⟨v, hv, h⟩ := bind_ok h
-    have hl := getArch_lookup hv
-    cases v with
-    | mk node reqs =>
-    simp only [] at h
-    by_cases hreq : (!reqs.isEmpty) = true
-    · rw [if_pos hreq] at h
-      cases h
-    · rw [if_neg hreq] at h
-      cases h
-      refine ⟨hz, rfl, ?_⟩
-      unfold Spec.evalType
-      rw [if_pos hna]
-      have hreq' : reqs.isEmpty = true := by simpa using hreq
-      unfold innerToOuter at hl
-      cases hf : key.args.find? (fun x => decide (x.binding = t.ident)) with
-      | some b =>
-        rw [hf] at hl
-        simp only [] at hl ⊢
-        unfold Spec.plain
-        rw [hev _ _ hl]
-        show ((if reqs.isEmpty = true then Except.ok node else kerr .invalidTypStatement [b.bound]) >>=
-          fun n => Except.ok (Node.setTyp t.ident n)) = _
-        rw [if_pos hreq']
-        rfl
+  · rw [if_neg hz] at h
+    by_cases hna : t.args.isEmpty = true
+    · -- no arguments
+      rw [if_pos hna] at h
+      obtain ⟨v, hv, h⟩ := bind_ok h
+      have hl := getArch_lookup hv
+      cases v with
+      | mk node reqs =>
+      simp only [] at h
+      by_cases hreq : (!reqs.isEmpty) = true
+      · rw [if_pos hreq] at h
+        cases h
+      · rw [if_neg hreq] at h
+        cases h
+        have hreq' : reqs.isEmpty = true := by simpa using hreq
+        refine ⟨hz, rfl, ?_, setTyp_typ _ _, ?_⟩
+        · unfold Spec.evalType
+          rw [if_pos hna]
+          unfold innerToOuter at hl
+          cases hf : key.args.find? (fun x => decide (x.binding = t.ident)) with
+          | some b =>
+            rw [hf] at hl
+            simp only [] at hl ⊢
+            rw [bind_ok_eq (plain_of_lookup hev hl hreq')]
+          | none =>
+            rw [hf] at hl
+            simp only [] at hl ⊢
+            rw [plain_of_lookup hev hl hreq']
+            have := (ht _ _ hl).1
+            show Except.ok node = Except.ok (node.setTyp t.ident)
+            rw [← this, setTyp_self]
+        · unfold innerToOuter at hl
+          cases hf : key.args.find? (fun x => decide (x.binding = t.ident)) with
+          | some b =>
+            right
+            refine ⟨hna, b, List.mem_of_find?_eq_some hf, ?_⟩
+            simpa using List.find?_some hf
+          | none =>
+            rw [hf] at hl
+            left
+            exact tableOK_ident ht hl
+    · -- type arguments
+      rw [if_neg hna] at h
+      cases hfind : key.args.find? (fun x => decide (x.binding = t.ident) || t.args.contains x.binding) with
+      | some b => rw [hfind] at h; cases h
       | none =>
-        rw [hf] at hl
-        simp only [] at hl ⊢
-        unfold Spec.plain
-        rw [hev _ _ hl]
-        show (if reqs.isEmpty = true then Except.ok node else kerr .invalidTypStatement [t.ident]) = _
-        rw [if_pos hreq']
-        have := htyp _ _ hl
-        show Except.ok node = Except.ok (node.setTyp t.ident)
-        rw [← this, setTyp_self]
+        rw [hfind] at h
+        simp only [] at h
+        obtain ⟨v, hv, h⟩ := bind_ok h
+        have hl := getArch_lookup hv
+        cases v with
+        | mk g reqArgs =>
+        simp only [] at h
+        by_cases hlen : reqArgs.length ≠ t.args.length
+        · rw [if_pos hlen] at h
+          cases h
+        · rw [if_neg hlen] at h
+          obtain ⟨node', hsub, h⟩ := bind_ok h
+          cases h
+          have hlen' : reqArgs.length = t.args.length := by simpa using hlen
+          obtain ⟨acts, hacts, hnode, hall⟩ := substArgs_spec hev ht reqArgs t.args g node' hlen' hsub
+          obtain ⟨htyp, km, hkm, hname, hargs, hshape⟩ := ht _ _ hl
+          simp only [] at htyp hargs hshape
+          have hany : (key.args.any fun x => decide (x.binding = t.ident) || t.args.contains x.binding) = false := by
+            apply Bool.eq_false_iff.2
+            intro hc
+            obtain ⟨x, hx, hp⟩ := List.any_eq_true.1 hc
+            have := List.find?_eq_none.1 hfind x hx
+            exact this hp
+          refine ⟨hz, rfl, ?_, ?_, Or.inl (tableOK_ident ht hl)⟩
+          · unfold Spec.evalType
+            rw [if_neg hna, hany]
+            simp only [Bool.false_eq_true, if_false]
+            rw [bind_ok_eq (hev _ _ hl)]
+            simp only []
+            rw [if_neg hlen, bind_ok_eq hacts, hnode]
+            have hdecl : Spec.ownDecls d t.ident = km.2.submodules := by
+              rw [← hname]; exact ownDecls_of_mem hs hkm
+            rw [hdecl, replAll_substOwn d km.1.args acts
+              (fun act hact => by
+                obtain ⟨⟨g', hg', he⟩, _⟩ := hall act hact
+                exact ⟨g', hargs ▸ hg', he⟩)
+              (hs.fresh km hkm) (fun act hact => (hall act hact).2) _ _ hshape]
+          · rw [hnode, setSubs_typ]
+            exact htyp
 
-theorem transformSubmodules_evalType {key : TypClause GenericsDef} {a : Archs}
-    {ev : Str → Except Fail (Node × List GenericsDef)} (decls : Str → List (FieldDef × TypClause Str))
-    (hev : ∀ name v, a.lookup name = some v → ev name = .ok v) (htyp : TypOK a) :
+theorem transformSubmodules_evalType {d : Def} (hs : Supported d) {key : TypClause GenericsDef} {a : Archs}
+    {ev : Str → Except Fail (Node × List GenericsDef)}
+    (hev : ∀ name v, a.lookup name = some v → ev name = .ok v) (ht : TableOK d a)
+    (par : List (FieldDef × Node)) (hpar : ∀ s ∈ par, s.2.typ ∈ idents d) :
     ∀ (l : List (FieldDef × TypClause Str)) (out : List (FieldDef × Node)),
-      (∀ s ∈ l, s.2.args.isEmpty = true) → transformSubmodules key a l = .ok out →
+      transformSubmodules key a l = .ok out →
       l.any (fun s => s.1.kard = .cluster 0) = false ∧
       l.mapM (fun (s : FieldDef × TypClause Str) => do
-        let n ← Spec.evalType ev decls key.args s.2
-        .ok (s.1, n)) = .ok out
-  | [], out, _, h => by
+        let n ← Spec.evalType ev (Spec.ownDecls d) key.args s.2
+        .ok (s.1, n)) = .ok out ∧
+      Shape d key.args l (out ++ par)
+  | [], out, h => by
     unfold transformSubmodules at h
     cases h
-    exact ⟨rfl, rfl⟩
-  | (f, t) :: r, out, hna, h => by
+    exact ⟨rfl, rfl, hpar⟩
+  | (f, t) :: r, out, h => by
     unfold transformSubmodules at h
-    obtain ⟨s, hs, h⟩ := bind_ok h
+    obtain ⟨s, hs', h⟩ := bind_ok h
     obtain ⟨rest, hrest, h⟩ := bind_ok h
     cases h
-    obtain ⟨hz, h1, h2⟩ := transformSubmodule_evalType decls hev htyp
-      (hna (f, t) (List.mem_cons_self ..)) (mapErr_ok hs)
-    obtain ⟨hz', hm⟩ := transformSubmodules_evalType decls hev htyp r rest
-      (fun x hx => hna x (List.mem_cons_of_mem _ hx)) hrest
-    refine ⟨?_, ?_⟩
+    obtain ⟨hz, h1, h2, h3, h4⟩ := transformSubmodule_evalType hs hev ht (mapErr_ok hs')
+    obtain ⟨hz', hm, hsh⟩ := transformSubmodules_evalType hs hev ht par hpar r rest hrest
+    refine ⟨?_, ?_, ?_⟩
     · simp only [List.any_cons, hz', Bool.or_false, decide_eq_false_iff_not]
       exact hz
     · cases s with
@@ -267,6 +567,20 @@ theorem transformSubmodules_evalType {key : TypClause GenericsDef} {a : Archs}
         subst h1
         simp only [List.mapM_cons, h2, hm]
         rfl
+    · exact ⟨h3, h4, hsh⟩
+
+theorem shape_plain {d : Def} : ∀ (l : List (FieldDef × TypClause Str)) (subs : List (FieldDef × Node)),
+    Shape d [] l subs → ∀ s ∈ subs, s.2.typ ∈ idents d
+  | [], subs, h => h
+  | _ :: _, [], _ => fun s hs => by cases hs
+  | (f, ty) :: ds, s :: ss, h => by
+    obtain ⟨h1, h2, h3⟩ := h
+    intro x hx
+    rcases List.mem_cons.1 hx with rfl | hx
+    · rcases h2 with h2 | ⟨_, b, hb, _⟩
+      · exact h1 ▸ h2
+      · cases hb
+    · exact shape_plain ds ss h3 x hx
 
 theorem dupBinding_none : ∀ (l : List GenericsDef), dupBinding l = none →
     Spec.allDistinct (l.map (·.binding)) = true
@@ -306,21 +620,24 @@ theorem bodyOf_of_lookup {d : Def} {ev : Str → Except Fail (Node × List Gener
   unfold Spec.bodyOf
   rw [bind_ok_eq h]
 
-/-- **one module**: `transform_module` against a table that agrees with `ev` = `bodyOf` against `ev` -/
-theorem transformModule_bodyOf {d : Def} {key : TypClause GenericsDef} {m : ModuleDef} {a : Archs}
-    {ev : Str → Except Fail (Node × List GenericsDef)}
+/-! ### one module -/
+
+/-- **one module**: `transform_module` against a table that agrees with `ev` = `bodyOf` against
+    `ev`; and the result has the `Shape` of the module -/
+theorem transformModule_bodyOf {d : Def} (hs : Supported d) {key : TypClause GenericsDef} {m : ModuleDef}
+    {a : Archs} {ev : Str → Except Fail (Node × List GenericsDef)}
+    (hmem : (key, m) ∈ d.modules)
     (hlook : Spec.lookupModule d key.ident = .ok (key, m))
-    (hev : ∀ name v, a.lookup name = some v → ev name = .ok v) (htyp : TypOK a)
+    (hev : ∀ name v, a.lookup name = some v → ev name = .ok v) (ht : TableOK d a)
     (hreq : ∀ s ∈ requiredSymbols key m, s ∈ keys a)
-    (hna : ∀ s ∈ m.submodules, s.2.args.isEmpty = true)
     {v : Node × List GenericsDef} (h : transformModule key m a d.links = .ok v) :
-    Spec.bodyOf d ev key.ident = .ok v := by
+    Spec.bodyOf d ev key.ident = .ok v ∧ Shape d key.args m.submodules v.1.subs := by
   unfold transformModule at h
   split at h
   · cases h
   · next hdup =>
     obtain ⟨gates, hg, h⟩ := bind_ok h
-    obtain ⟨subs, hs, h⟩ := bind_ok h
+    obtain ⟨subs, hsb, h⟩ := bind_ok h
     obtain ⟨inh, hi, h⟩ := bind_ok h
     obtain ⟨conns, hc, h⟩ := bind_ok h
     cases h
@@ -337,33 +654,41 @@ theorem transformModule_bodyOf {d : Def} {key : TypClause GenericsDef} {m : Modu
         obtain ⟨g, hgm, hgk⟩ := List.any_eq_true.1 hc
         exact absurd hgk (by simpa using List.find?_eq_none.1 hnone g hgm)
     obtain ⟨hgz, rfl⟩ := hgz
-    -- submodules
-    obtain ⟨hsz, hsm⟩ := transformSubmodules_evalType (Spec.ownDecls d) hev htyp m.submodules subs hna hs
-    -- bounds
-    obtain ⟨bs, hbs⟩ := mapM_ok_of_forall (fun (x : GenericsDef) => ev x.bound) key.args (by
-      intro x hx
-      obtain ⟨v, hv⟩ := lookup_of_mem_keys a _ (hreq _ (mem_required_bound hx))
-      exact ⟨v, hev _ _ hv⟩)
     -- parent
     have hpar : ∃ P, Spec.parentOf ev m.inherit = .ok P ∧
-        inh = (extendSet m.gates.eraseDups P.gates, subs ++ P.subs, P.conns) := by
+        inh = (extendSet m.gates.eraseDups P.gates, subs ++ P.subs, P.conns) ∧
+        ∀ s ∈ P.subs, s.2.typ ∈ idents d := by
       unfold inheritFrom at hi
       unfold Spec.parentOf
       cases hinh : m.inherit with
       | none =>
         rw [hinh] at hi
         cases hi
-        exact ⟨_, rfl, by simp [extendSet, Node.gates, Node.subs, Node.conns]⟩
+        exact ⟨_, rfl, by simp [extendSet, Node.gates, Node.subs, Node.conns],
+          fun s hs' => by simp [Node.subs] at hs'⟩
       | some p =>
         rw [hinh] at hi
         simp only [] at hi ⊢
         obtain ⟨arch, harch, hi⟩ := bind_ok hi
         cases hi
-        rw [bind_ok_eq (hev _ _ (getArch_lookup harch))]
-        exact ⟨_, rfl, rfl⟩
-    obtain ⟨P, hP, rfl⟩ := hpar
+        have hl := getArch_lookup harch
+        rw [bind_ok_eq (hev _ _ hl)]
+        refine ⟨_, rfl, rfl, ?_⟩
+        obtain ⟨_, km', hkm', hname, hargs, hshape⟩ := ht _ _ hl
+        have : km'.1.args = [] := hs.plainParent (key, m) hmem p hinh km' hkm' hname
+        rw [this] at hshape
+        exact shape_plain _ _ hshape
+    obtain ⟨P, hP, rfl, hPsubs⟩ := hpar
+    -- submodules
+    obtain ⟨hsz, hsm, hshape⟩ := transformSubmodules_evalType hs hev ht P.subs hPsubs m.submodules subs hsb
+    -- bounds
+    obtain ⟨bs, hbs⟩ := mapM_ok_of_forall (fun (x : GenericsDef) => ev x.bound) key.args (by
+      intro x hx
+      obtain ⟨v, hv⟩ := lookup_of_mem_keys a _ (hreq _ (mem_required_bound hx))
+      exact ⟨v, hev _ _ hv⟩)
     -- connections
     obtain ⟨css, hcss, hce⟩ := transformConnections_expand _ _ _ _ _ _ _ hc
+    refine ⟨?_, hshape⟩
     rw [bodyOf_of_lookup hlook]
     simp only [] at hcss hce ⊢
     rw [if_neg (by simp [dupBinding_none _ hdup]), if_neg (by simp [hgz]), if_neg (by simp [hsz])]
@@ -377,7 +702,7 @@ def Good (d : Def) (a : Archs) : Prop :=
 
 theorem transformModule_typ {ident : TypClause GenericsDef} {m : ModuleDef} {nodes : Archs}
     {links : List (Str × Link)} {v : Node × List GenericsDef}
-    (h : transformModule ident m nodes links = .ok v) : v.1.typ = ident.ident := by
+    (h : transformModule ident m nodes links = .ok v) : v.1.typ = ident.ident ∧ v.2 = ident.args := by
   unfold transformModule at h
   split at h
   · cases h
@@ -386,7 +711,7 @@ theorem transformModule_typ {ident : TypClause GenericsDef} {m : ModuleDef} {nod
     obtain ⟨_, _, h⟩ := bind_ok h
     obtain ⟨_, _, h⟩ := bind_ok h
     cases h
-    rfl
+    exact ⟨rfl, rfl⟩
 
 theorem lookup_cons (k : Str) (v : Node × List GenericsDef) (a : Archs) (x : Str) :
     List.lookup x ((k, v) :: a) = if x = k then some v else a.lookup x := by
@@ -396,13 +721,12 @@ theorem lookup_cons (k : Str) (v : Node × List GenericsDef) (a : Archs) (x : St
   · have : (x == k) = false := by simpa using h
     simp [this, h]
 
-theorem buildAll_good (d : Def) : ∀ (es : List Entry) (a a' : Archs),
+theorem buildAll_good (d : Def) (hs : Supported d) : ∀ (es : List Entry) (a a' : Archs),
     buildAll d.links es a = .ok a' → Ordered (keys a) es →
-    (∀ e ∈ es, e.deps = requiredSymbols e.ident e.mdef ∧
-      Spec.lookupModule d e.ident.ident = .ok (e.ident, e.mdef) ∧
-      ∀ s ∈ e.mdef.submodules, s.2.args.isEmpty = true) →
-    Good d a → TypOK a →
-    Good d a' ∧ TypOK a' ∧ a'.length = a.length + es.length ∧
+    (∀ e ∈ es, e.deps = requiredSymbols e.ident e.mdef ∧ (e.ident, e.mdef) ∈ d.modules ∧
+      Spec.lookupModule d e.ident.ident = .ok (e.ident, e.mdef)) →
+    Good d a → TableOK d a →
+    Good d a' ∧ TableOK d a' ∧ a'.length = a.length + es.length ∧
       (∀ e ∈ es, e.ident.ident ∈ keys a') ∧ (∀ k ∈ keys a, k ∈ keys a')
   | [], a, a', h, _, _, hg, ht => by
     unfold buildAll at h
@@ -416,7 +740,7 @@ theorem buildAll_good (d : Def) : ∀ (es : List Entry) (a a' : Archs),
     have harch := mapErr_ok harch
     cases hord with
     | cons hdeps hrest =>
-      obtain ⟨hd, hlook, hna⟩ := hes e (List.mem_cons_self ..)
+      obtain ⟨hd, hmem, hlook⟩ := hes e (List.mem_cons_self ..)
       have hreq : ∀ s ∈ requiredSymbols e.ident e.mdef, s ∈ keys a := by rw [← hd]; exact hdeps
       have hg' : Good d ((e.ident.ident, arch) :: a) := by
         intro f hf name v hl
@@ -430,15 +754,19 @@ theorem buildAll_good (d : Def) : ∀ (es : List Entry) (a a' : Archs),
           | succ f =>
             have hf' : a.length ≤ f := by simpa using hf
             show Spec.bodyOf d (Spec.evalBody d f) e.ident.ident = .ok _
-            exact transformModule_bodyOf hlook (fun n w hw => hg f hf' n w hw) ht hreq hna harch
+            exact (transformModule_bodyOf hs hmem hlook (fun n w hw => hg f hf' n w hw) ht hreq harch).1
         · exact hg f (by simp at hf; omega) name v hl
-      have ht' : TypOK ((e.ident.ident, arch) :: a) := by
+      have ht' : TableOK d ((e.ident.ident, arch) :: a) := by
         intro name v hl
         rw [lookup_cons] at hl
         split at hl
-        · next hname => cases hl; rw [hname]; exact transformModule_typ harch
+        · next hname =>
+          cases hl
+          obtain ⟨t1, t2⟩ := transformModule_typ harch
+          refine ⟨by rw [hname]; exact t1, (e.ident, e.mdef), hmem, hname.symm, t2, ?_⟩
+          exact (transformModule_bodyOf hs hmem hlook (fun n w hw => hg a.length (Nat.le_refl _) n w hw) ht hreq harch).2
         · exact ht name v hl
-      obtain ⟨g1, g2, g3, g4, g5⟩ := buildAll_good d es _ a' h hrest
+      obtain ⟨g1, g2, g3, g4, g5⟩ := buildAll_good d hs es _ a' h hrest
         (fun e' he' => hes e' (List.mem_cons_of_mem _ he')) hg' ht'
       refine ⟨g1, g2, by simp at g3 ⊢; omega, ?_, ?_⟩
       · intro e' he'
@@ -525,36 +853,50 @@ theorem orderLoop_complete : ∀ (fuel : Nat) (done rest : List Entry) (p : List
 
 /-! ### the theorem -/
 
-theorem lookupModule_of_mem (d : Def) (hu : Spec.allDistinct (d.modules.map (·.1.ident)) = true)
+theorem lookupModule_of_mem {d : Def} (hs : Supported d)
     {km : TypClause GenericsDef × ModuleDef} (hm : km ∈ d.modules) :
     Spec.lookupModule d km.1.ident = .ok km := by
+  have h := ownDecls_of_mem hs hm
+  unfold Spec.ownDecls at h
   unfold Spec.lookupModule
-  have : ∀ (l : List (TypClause GenericsDef × ModuleDef)),
-      Spec.allDistinct (l.map (·.1.ident)) = true → km ∈ l →
-      l.find? (fun x => x.1.ident = km.1.ident) = some km := by
-    intro l
-    induction l with
-    | nil => intro _ h; cases h
-    | cons x l ih =>
-      intro hd hmem
-      simp only [List.map_cons, Spec.allDistinct, Bool.and_eq_true, Bool.not_eq_true'] at hd
-      rcases List.mem_cons.1 hmem with rfl | hmem
-      · simp
-      · have hne : x.1.ident ≠ km.1.ident := by
-          intro e
-          have : x.1.ident ∈ l.map (·.1.ident) := e ▸ List.mem_map.2 ⟨km, hmem, rfl⟩
+  cases hf : d.modules.find? (fun x => x.1.ident = km.1.ident) with
+  | none =>
+    exfalso
+    have := List.find?_eq_none.1 hf km hm
+    simp at this
+  | some km' =>
+    -- the first module with this identifier is `km` itself (identifiers are distinct)
+    have hmem' := List.mem_of_find?_eq_some hf
+    have hid : km'.1.ident = km.1.ident := by simpa using List.find?_some hf
+    have : ∀ (l : List (TypClause GenericsDef × ModuleDef)),
+        Spec.allDistinct (l.map (·.1.ident)) = true → km ∈ l → km' ∈ l → km' = km := by
+      intro l
+      induction l with
+      | nil => intro _ h; cases h
+      | cons x l ih =>
+        intro hd h1 h2
+        simp only [List.map_cons, Spec.allDistinct, Bool.and_eq_true, Bool.not_eq_true'] at hd
+        have hx : ∀ y ∈ l, y.1.ident ≠ x.1.ident := by
+          intro y hy e
+          have : x.1.ident ∈ l.map (·.1.ident) := e ▸ List.mem_map.2 ⟨y, hy, rfl⟩
           have hc : (l.map (·.1.ident)).contains x.1.ident = true := by simpa using this
           rw [hd.1] at hc
           cases hc
-        simp only [List.find?_cons, hne, decide_false]
-        exact ih hd.2 hmem
-  rw [this d.modules hu hm]
+        rcases List.mem_cons.1 h1 with e1 | k1
+        · rcases List.mem_cons.1 h2 with e2 | k2
+          · rw [e1, e2]
+          · exact absurd hid (e1 ▸ hx _ k2)
+        · rcases List.mem_cons.1 h2 with e2 | k2
+          · exact absurd hid.symm (e2 ▸ hx _ k1)
+          · exact ih hd.2 k1 k2
+    rw [this d.modules hs.uniq hm hmem']
 
-/-- **transform = denotation** (as trees), for descriptions with pairwise distinct module
-    identifiers whose submodule types carry no type arguments -/
-theorem transform_denoteTree (d : Def) (hu : Spec.allDistinct (d.modules.map (·.1.ident)) = true)
-    (hna : Spec.noTypeArgs d = true) (n : Node) (h : transform d = .ok n) :
-    Spec.denoteTree d = .ok n := by
+/-- **transform = denotation** (as trees), for every description of the supported fragment:
+    inheritance, generic modules, type arguments, clusters, every kind of connection, links,
+    every hash-map iteration order -/
+theorem transform_denoteTree (d : Def) (hsup : Spec.unsupported d = false) (n : Node)
+    (h : transform d = .ok n) : Spec.denoteTree d = .ok n := by
+  have hs := supported_of hsup
   unfold transform at h
   obtain ⟨archs, harchs, h⟩ := bind_ok h
   unfold elaborate at harchs
@@ -563,18 +905,14 @@ theorem transform_denoteTree (d : Def) (hu : Spec.allDistinct (d.modules.map (·
   simp only [List.nil_append] at ht
   subst ht
   obtain ⟨hall, hlen⟩ := orderLoop_complete _ _ _ _ _ hord
-  have hes : ∀ e ∈ ordered, e.deps = requiredSymbols e.ident e.mdef ∧
-      Spec.lookupModule d e.ident.ident = .ok (e.ident, e.mdef) ∧
-      ∀ s ∈ e.mdef.submodules, s.2.args.isEmpty = true := by
+  have hes : ∀ e ∈ ordered, e.deps = requiredSymbols e.ident e.mdef ∧ (e.ident, e.mdef) ∈ d.modules ∧
+      Spec.lookupModule d e.ident.ident = .ok (e.ident, e.mdef) := by
     intro e he
     have := hsub e he
     simp only [entries, List.mem_map] at this
     obtain ⟨km, hkm, rfl⟩ := this
-    refine ⟨rfl, lookupModule_of_mem d hu hkm, ?_⟩
-    intro s hs
-    have := List.all_eq_true.1 hna km hkm
-    exact List.all_eq_true.1 this s hs
-  obtain ⟨hgood, _, hlen', hkeys, _⟩ := buildAll_good d ordered [] archs hbuild hOrd hes
+    exact ⟨rfl, hkm, lookupModule_of_mem hs hkm⟩
+  obtain ⟨hgood, _, hlen', hkeys, _⟩ := buildAll_good d hs ordered [] archs hbuild hOrd hes
     (fun f _ name v hl => by cases hl) (fun name v hl => by cases hl)
   have hfuel : archs.length ≤ d.modules.length + 1 := by
     simp [entries] at hlen hlen'
